@@ -19,7 +19,8 @@ from . import core
 
 MODULES = ["ESV.Props.DecompFront", "ESV.Props.DecompOpt"]
 THEOREMS = ["ESV.DecompFront.resolve_total", "ESV.DecompFront.resolve_preserves", "ESV.DecompFront.baseGraph_preserves",
-            "ESV.DecompFront.resolve_names", "ESV.DecompFront.baseGraph_ok", "ESV.DecompFront.edge_reading_agrees"]
+            "ESV.DecompFront.resolve_names", "ESV.DecompFront.baseGraph_ok", "ESV.DecompFront.edge_reading_agrees",
+            "ESV.DecompFront.optimizePaths_preserves", "ESV.DecompFront.front_phases_preserve"]
 
 
 def strip_ops(rs: dict) -> list:
